@@ -68,7 +68,7 @@ def decorated_terms():
 
 def build(depth, stride, offset):
     """Expressions built through the public operators only."""
-    from y0.dsl import A, B, C, P, Sum, Zero
+    from y0.dsl import A, B, C, One, P, Sum, Zero
 
     L = leaves()
     out = [("leaf", e) for e in L]
@@ -108,6 +108,22 @@ def build(depth, stride, offset):
                 i += 1
                 if i % stride == offset % stride:
                     out.append(("sum", Sum[r](e)))
+    # operator-precedence family (both tiers, not strided): every grouping of three small operands by * and /, alone,
+    # as the whole body of a Sum, and as a factor next to a Sum (a strided depth-3 family missed a seeded printer
+    # change that needs a Sum whose body is a fraction with a product denominator)
+    S = [P(A), P(B), P(C | A), P(A, B, C), One()]
+    for a, b, c in itt.product(S, S, S):
+        groups = []
+        try:
+            groups = [a / (b * c), (a * b) / c, a / (b / c), (a / b) / c, a * (b / c), (a / b) * c]
+        except ZeroDivisionError:
+            pass
+        for f in groups:
+            out.append(("prec", f))
+            out.append(("prec-sum", Sum[(C,)](f)))
+            out.append(("prec-sum", Sum[(A, B)](f)))
+            out.append(("prec-sum*", Sum[(C,)](f) * P(B)))
+            out.append(("prec-sum/", P(B) / Sum[(C,)](f)))
     import json
 
     seen = {}
@@ -214,7 +230,7 @@ def run() -> int:
         "normalising constructors reached through the parser (Distribution.safe, Product.safe, Sum.safe, __truediv__)",
     ]
     rep.bounds = {
-        "expressions": "built through public operators only: 594 single terms over systematically decorated variables (value mark x 0-2 subscripts of mixed polarity, on children and conditions, plain / population-tagged) alone, times P(B), and under P(B)/.; 30 leaves (joint/conditional, value marks, L2 and L3 subscripts, population tags incl. the target tag, Q-factors, One, Zero); all a*b, a/b, Sum[R](a); depth 3 = (depth-2) op leaf in both positions and sums (quick: every 25th, thorough: every 2nd); duplicates by printed form removed",
+        "expressions": "built through public operators only: 594 single terms over systematically decorated variables (value mark x 0-2 subscripts of mixed polarity, on children and conditions, plain / population-tagged) alone, times P(B), and under P(B)/.; 30 leaves (joint/conditional, value marks, L2 and L3 subscripts, population tags incl. the target tag, Q-factors, One, Zero); all a*b, a/b, Sum[R](a); depth 3 = (depth-2) op leaf in both positions and sums (quick: every 25th, thorough: every 2nd); an operator-precedence family in both tiers (every grouping of three small operands by * and /, alone, as the body of a Sum, and next to a Sum); structural duplicates removed",
         "distributions": "free positive joints per (population, intervention assignment), binary variables, Q-factors uninterpreted; cross-world terms cannot be evaluated in this world: for them only object equality after the round trip is checked (a shape-changing round trip of a cross-world term is reported as inconclusive)",
         "PYTHONHASHSEED": hashseed(),
     }
